@@ -116,7 +116,7 @@ impl<M: MemBuilder> AnyVecRaw<M> {
     /// will panic, if out of capacity.
     #[inline]
     pub fn reserve(&mut self, additional: usize) {
-        let new_len = self.len + additional;
+        let new_len = self.len.checked_add(additional).expect("capacity overflow");
         if self.capacity() < new_len{
             self.mem.expand(new_len - self.capacity());
         }
@@ -126,7 +126,7 @@ impl<M: MemBuilder> AnyVecRaw<M> {
     pub fn reserve_exact(&mut self, additional: usize)
         where M::Mem: MemResizable
     {
-        let new_len = self.len + additional;
+        let new_len = self.len.checked_add(additional).expect("capacity overflow");
         if self.capacity() < new_len{
             self.mem.expand_exact(new_len - self.capacity());
         }
